@@ -246,7 +246,9 @@ impl TopicActor {
 
     fn delete(&mut self) -> Result<(), DeleteError> {
         if self.deleted {
-            return Ok(());
+            // Somebody else's deletion got here first: for this caller there is
+            // nothing left to delete.
+            return Err(DeleteError::Closed);
         }
 
         // Mark the topic as deleted.
